@@ -942,6 +942,10 @@ class FnTranslator:
                 for k in [k for k, v in self.name_alias.items() if v == target.id]:
                     del self.name_alias[k]
             if target.id not in self.declared:
+                if not rebind and (target.id in self.mod.assigned_globals or target.id in self.mod.imports):
+                    raise Unsupported(f"in-place mutation of module-level object {target.id}")
+                if target.id in self.globals_written:
+                    raise Unsupported(f"assignment to global {target.id}")
                 self.declared.add(target.id)
                 return [f"let mut {mangle(target.id)} := {value}"]
             out = [f"{mangle(target.id)} := {value}"]
@@ -1625,6 +1629,14 @@ class FnTranslator:
             pre.append(f"  let mut {mangle(name)} : {ty} := default")
             self.declared.add(name)
         # rewrite break statements: python `break` in while => done flag; handled by patching body text
+        if fn.decorator_list:
+            raise Unsupported("decorated function: " + ", ".join(ast.unparse(d) for d in fn.decorator_list))
+        ndef = len(fn.args.defaults)
+        for a, d in zip(fn.args.args[len(fn.args.args) - ndef:], fn.args.defaults):
+            if isinstance(d, (ast.List, ast.Dict, ast.Set, ast.Call, ast.ListComp, ast.DictComp)) and a.arg in self.mutated:
+                raise Unsupported(f"mutable default argument {a.arg} is mutated (state shared between calls)")
+        if fn.args.vararg or fn.args.kwarg or fn.args.kwonlyargs:
+            raise Unsupported("*args/**kwargs/keyword-only parameters")
         self.ret_type = self.hints.get("returns") or (cfg.lean_type(ast.unparse(fn.returns), None) if fn.returns else None)
         body = self.block(fn.body, 1)
         if not ends_with_exit(fn.body):
